@@ -18,8 +18,9 @@ TReset == /\ Ev("reset")
 \* the CER is on the wire before hs.send is logged: WriteCER is silent, hs.send = the goroutine reaches its select
 TSend    == Ev("hs.send") /\ EnterSelect
 \* hs.fail is logged between the receive and the close of errc: the close (CloseErrc) is silent
-Silent   == l <= Len(Trace) /\ UNCHANGED l /\ (WriteCER \/ SendOnClosed \/ CloseErrc \/ RecvErr)
-TWFail   == Ev("hs.writefail") /\ SendFails
+Silent   == l <= Len(Trace) /\ UNCHANGED l /\ (WriteCER \/ SendOnClosed \/ CloseErrc \/ RecvErr \/ CloseAfterWFail)
+\* hs.writefail is logged before the transport is closed: on a closed transport (SendFails) or on a healthy one
+TWFail   == Ev("hs.writefail") /\ (SendFails \/ WriteFails)
 TTimer   == Ev("hs.timer") /\ Timer
 TTimeout == Ev("hs.timeout") /\ cli = "done_err" /\ Stutter
 TOk      == Ev("hs.ok") /\ RecvClosed
